@@ -97,3 +97,87 @@ func c01Compare(a *ast.Ast, text string, twin int) {
 		vFail("spans differ from the reference backtracking semantics")
 	}
 }
+
+// ---- generated family F2: every quantifier form over every quantifier form, in five structural positions ----
+// (hand-picked lists miss combinations; this family is enumerated systematically)
+
+var c01Wrap = []string{"maybe %", "maybe % fewest", "at least 0 %", "at least 1 %", "at least 1 % fewest", "at most 2 %", "at most 2 % fewest", "between 1 and 2 %", "exactly 2 %", "at least 2 %"}
+
+var c01Pos = []string{
+	"find all %1 'b'",                        // Q1(Q2('a')) 'b'            (%1 = Q1 over Q2 over 'a')
+	"find all %2",                            // Q1((Q2('a') 'b'))
+	"find all %3 'c'",                        // Q1(('a' or (Q2('b')))) 'c'
+	"find all %4",                            // Q1('a') Q2('a')
+	"find all %5",                            // Q1(('a' = x)) Q2(x)   — captures and back-references under quantifiers
+	"find all {%6} = s s",                    // {Q1('a') Q2('b')} = s s
+	"set p to pattern %6 find all p 'c' p",   // the same body as a global pattern, referenced twice
+	"find all {%7} = s %8",                   // {'a' Q2('b')} = s  Q1((',' s)) : a call inside every loop form
+	"set p to pattern %7 find all p %9",      // the same through a global pattern referenced before and inside the loop
+}
+
+func VerifC01GenCount() int { return len(c01Pos) * len(c01Wrap) * len(c01Wrap) }
+
+func c01Sub(tmpl string, x string) string {
+	s := ""
+	for i := 0; i < len(tmpl); i++ {
+		if tmpl[i] == '%' {
+			s += x
+		} else {
+			s += string(tmpl[i])
+		}
+	}
+	return s
+}
+
+func c01GenSource(i int) string {
+	nw := len(c01Wrap)
+	q2 := c01Wrap[i%nw]
+	q1 := c01Wrap[(i/nw)%nw]
+	pos := c01Pos[i/(nw*nw)]
+	var body string
+	switch i / (nw * nw) {
+	case 0:
+		body = c01Sub(q1, "("+c01Sub(q2, "'a'")+")")
+	case 1:
+		body = c01Sub(q1, "("+c01Sub(q2, "'a'")+" 'b')")
+	case 2:
+		body = c01Sub(q1, "('a' or ("+c01Sub(q2, "'b'")+"))")
+	case 3:
+		body = c01Sub(q1, "'a'") + " " + c01Sub(q2, "'a'")
+	case 4:
+		body = c01Sub(q1, "('a' = x)") + " " + c01Sub(q2, "x")
+	case 5, 6:
+		body = c01Sub(q1, "'a'") + " " + c01Sub(q2, "'b'")
+	}
+	s := ""
+	for j := 0; j < len(pos); j++ {
+		if pos[j] == '%' {
+			switch pos[j+1] {
+			case '7':
+				s += "'a' " + c01Sub(q2, "'b'")
+			case '8':
+				s += c01Sub(q1, "(',' s)")
+			case '9':
+				s += c01Sub(q1, "(',' p)")
+			default:
+				s += body
+			}
+			j++ // skip the digit
+		} else {
+			s += string(pos[j])
+		}
+	}
+	return s
+}
+
+func VerifC01Gen(i int, T int, symLits int) {
+	src := c01GenSource(i)
+	a := vParse(src)
+	if symLits > 0 {
+		vSymboliseLiterals(a, symLits)
+	}
+	text := vText("text", 0, T, true)
+	vNote("source", src)
+	vNote("text", text)
+	c01Compare(a, text, 0)
+}
